@@ -34,7 +34,7 @@ fn check_dec(n: usize) {
     std::mem::forget(r);
 }
 
-//# harness dec_len_2 tier=quick label=bounded(len=2) props=C10,C06 fn=rusty_parser/src/expr/integer_or_long_literal.rs::process_dec
+//# harness dec_len_2 attempt=1 tier=thorough label=bounded(len=2) props=C10,C06 fn=rusty_parser/src/expr/integer_or_long_literal.rs::process_dec
 harness!(dec_len_2, 5, {
     check_dec(2);
 });
